@@ -29,6 +29,7 @@ type c09Case struct {
 	deflt     bool
 	host      int // 0 top-level body, 1 if branch, 2 lambda body, 3 let rhs, 4 arm of outer match, 5 pipe stage, 6 block arm bodies
 	src       string
+	src2      string // second file (two-file host)
 	accept    bool
 	uncovered []string
 }
@@ -170,6 +171,98 @@ func c09Render(cs *c09Case, suffix string) string {
 	return sb.String()
 }
 
+// c09PairDriver: two matches on the SAME union in one fc invocation - in two functions of one file,
+// in two files, or the second nested in the first arm of the first.  State that survives from one
+// exhaustiveness check to the next (a cached cover table, a set that is not reset) shows only here.
+func c09PairDriver(maxN int) func(c *explore.Chooser) *c09Case {
+	return func(c *explore.Chooser) *c09Case {
+		cs := &c09Case{host: 100 + c.Choose(3)} // 100 sequential, 101 nested, 102 two files
+		cs.n = 2 + c.Choose(maxN-1)
+		cs.payload = make([]bool, cs.n)
+		for i := range cs.payload {
+			cs.payload[i] = c.Bool()
+		}
+		type sel struct {
+			arms  []int
+			deflt bool
+		}
+		pick := func() sel {
+			var s sel
+			for i := 0; i < cs.n; i++ {
+				if c.Bool() {
+					s.arms = append(s.arms, i)
+				}
+			}
+			if len(s.arms) == 0 {
+				c.Skip("no arm")
+			}
+			s.deflt = c.Bool()
+			return s
+		}
+		a, b := pick(), pick()
+		unc := func(s sel) []string {
+			if s.deflt {
+				return nil
+			}
+			var out []string
+			for i := 0; i < cs.n; i++ {
+				found := false
+				for _, x := range s.arms {
+					if x == i {
+						found = true
+					}
+				}
+				if !found {
+					out = append(out, c09Name(i))
+				}
+			}
+			return out
+		}
+		ua, ub := unc(a), unc(b)
+		cs.uncovered = append(append([]string{}, ua...), ub...)
+		cs.accept = len(ua) == 0 && len(ub) == 0
+		arms := func(s sel, ind string, inner string) string {
+			var sb strings.Builder
+			for k, x := range s.arms {
+				pat := c09Name(x)
+				if cs.payload[x] {
+					pat += " _"
+				}
+				if k == 0 && inner != "" {
+					fmt.Fprintf(&sb, "%s| %s ->\n%s", ind, pat, inner)
+				} else {
+					fmt.Fprintf(&sb, "%s| %s -> %d\n", ind, pat, 100+x)
+				}
+			}
+			if s.deflt {
+				fmt.Fprintf(&sb, "%s| _ -> 999\n", ind)
+			}
+			return sb.String()
+		}
+		var ty strings.Builder
+		ty.WriteString("type U =\n")
+		for i := 0; i < cs.n; i++ {
+			if cs.payload[i] {
+				fmt.Fprintf(&ty, "  | %s of int\n", c09Name(i))
+			} else {
+				fmt.Fprintf(&ty, "  | %s\n", c09Name(i))
+			}
+		}
+		head := "package main\nimport frt\nimport slice\n\n"
+		switch cs.host {
+		case 100:
+			cs.src = head + ty.String() + "\nlet f (u:U) =\n  match u with\n" + arms(a, "  ", "") + "\nlet g (u:U) =\n  match u with\n" + arms(b, "  ", "")
+		case 101:
+			inner := "    match u with\n" + arms(b, "    ", "")
+			cs.src = head + ty.String() + "\nlet f (u:U) =\n  match u with\n" + arms(a, "  ", inner)
+		case 102:
+			cs.src = head + ty.String() + "\nlet f (u:U) =\n  match u with\n" + arms(a, "  ", "")
+			cs.src2 = "package main\n\nlet g (u:U) =\n  match u with\n" + arms(b, "  ", "")
+		}
+		return cs
+	}
+}
+
 func checkC09(c *core.Ctx) {
 	sc, err := impl.New(c.Repo)
 	if err != nil {
@@ -206,7 +299,7 @@ func checkC09(c *core.Ctx) {
 				if c.TooManyViolations() {
 					continue
 				}
-				if c09RunOne(c, fc, sc.PkgAllFoi(), dir, cs) && cs.n <= 3 {
+				if c09RunOne(c, fc, sc.PkgAllFoi(), dir, cs) && cs.n <= 3 && cs.host < 100 {
 					acceptedMu.Lock()
 					accepted = append(accepted, cs)
 					acceptedMu.Unlock()
@@ -223,6 +316,20 @@ func checkC09(c *core.Ctx) {
 		jobs <- cur
 		return true
 	})
+	{
+		pd := c09PairDriver(3)
+		var cur2 *c09Case
+		st2 := explore.Explore(-1, func(ch *explore.Chooser) { cur2 = pd(ch) }, func(ch *explore.Chooser) bool {
+			cur2.choices = append([]int{}, ch.Choices...)
+			if c.Expired() {
+				return false
+			}
+			jobs <- cur2
+			return true
+		})
+		c.Count(0, st2.States, st2.Transitions, 0)
+		c.Set("two_match_histories", st2.Executions)
+	}
 	close(jobs)
 	wg.Wait()
 	c.Count(0, st.States, st.Transitions, 0)
@@ -239,16 +346,31 @@ var c09Word = regexp.MustCompile(`Zq[a-z]`)
 // returns true if the program was accepted as expected
 func c09RunOne(c *core.Ctx, fc, foi, dir string, cs *c09Case) bool {
 	os.Remove(filepath.Join(dir, "gen_t.go"))
+	os.Remove(filepath.Join(dir, "gen_t2.go"))
 	os.WriteFile(filepath.Join(dir, "t.fo"), []byte(cs.src), 0o644)
 	args := []string{"t.fo"}
 	if cs.host == 5 {
 		args = []string{foi, "t.fo"}
 	}
+	if cs.src2 != "" {
+		os.WriteFile(filepath.Join(dir, "t2.fo"), []byte(cs.src2), 0o644)
+		args = append(args, "t2.fo")
+	}
 	r := impl.RunWithRetry(dir, 20*time.Second, 60*time.Second, fc, args...)
 	_, statErr := os.Stat(filepath.Join(dir, "gen_t.go"))
 	genExists := statErr == nil
+	if cs.src2 != "" {
+		// two files: "the" output is the one of the file holding the (first) incomplete match; for accepted
+		// cases both must exist; for rejected ones the offending file's must not
+		_, e2 := os.Stat(filepath.Join(dir, "gen_t2.go"))
+		if cs.accept {
+			genExists = genExists && e2 == nil
+		} else {
+			genExists = genExists && e2 == nil
+		}
+	}
 	c.Count(1, 0, 0, 1)
-	c.DistinctNT(cs.src, cs.n >= 2)
+	c.DistinctNT(cs.src+cs.src2, cs.n >= 2)
 	c.Hist("by_n", fmt.Sprint(cs.n), 1)
 	c.Hist("by_host", fmt.Sprint(cs.host), 1)
 	exp := "reject"
@@ -258,7 +380,7 @@ func c09RunOne(c *core.Ctx, fc, foi, dir string, cs *c09Case) bool {
 	c.Hist("expected", exp, 1)
 	c.Sample(map[string]any{"program": cs.src, "expected": exp})
 	rep := func(obs string) map[string]any {
-		return map[string]any{"choices": cs.choices, "input": map[string]string{"t.fo": cs.src}, "expected": exp, "observed": obs}
+		return map[string]any{"choices": cs.choices, "input": map[string]string{"t.fo": cs.src, "t2.fo": cs.src2}, "expected": exp, "observed": obs}
 	}
 	if r.TimedOut {
 		c.Outcome("hang")
